@@ -9,6 +9,7 @@ package main
 //	C07.same_group_only        every offer/close, every held down stream
 //	C07.teardown               every vanished down stream, and at quiescence
 //	C07.close_only_when        every close
+//	C07.late-joiner            regression of F26 (subscribe.go)
 //
 // The unique-id hypothesis of the theorems: a stream id used by two owners or
 // used twice is a `collision`; the monitors skip such ids (the driver stream
@@ -120,13 +121,18 @@ func (h *hist) candidateRequests(m *cli, u *upRec) [][]string {
 	return out
 }
 
-func (h *hist) perOpMonitors(actor *cli, kind string, opId int, downsBefore [][]int, grpBefore []bool) {
+func (h *hist) perOpMonitors(actor *cli, kind string, opId int, downsBefore [][]int, grpBefore []int) {
 	for i, m := range h.cs {
-		inGroup := m.c.HasGroup() && !m.c.Dead
-		mg := -1
-		if inGroup {
+		// messages are sent to m while m serves its own loop: the group that
+		// matters is the one m was in when the operation began (an operation
+		// that ends the connection, e.g. a kick at the end of a batch, leaves
+		// the group afterwards)
+		stillIn := m.c.HasGroup() && !m.c.Dead
+		mg := grpBefore[i]
+		if mg < 0 && stillIn {
 			mg = num(m.c.GroupName())
 		}
+		inGroup := mg >= 0
 		for _, o := range m.new {
 			switch o.typ {
 			case "offer":
@@ -195,7 +201,7 @@ func (h *hist) perOpMonitors(actor *cli, kind string, opId int, downsBefore [][]
 			}
 		}
 		// teardown, message half: a down stream does not vanish silently
-		if grpBefore[i] && inGroup && !(actor == m && (kind == "leave" || kind == "disc")) {
+		if grpBefore[i] >= 0 && stillIn && !(actor == m && (kind == "leave" || kind == "disc")) {
 			now := map[int]bool{}
 			for _, id := range m.c.DownIds() {
 				now[num(id)] = true
@@ -311,6 +317,10 @@ func (h *hist) quiescentMonitors() {
 					if sel, _ := specSelect(req, kinds); len(sel) == 0 {
 						justified = true
 					}
+				}
+				if name, ok := h.knownMiss[[2]int{m.h, u.id}]; ok && !justified {
+					h.note("FINDING reproduced: " + name)
+					continue
 				}
 				if !justified {
 					h.fail("offered_iff_requested", fmt.Sprintf("at quiescence client %d does not hold stream %d (label %d, kinds %v) of client %d although its request %s selects tracks",
